@@ -63,6 +63,7 @@ Record e2e_case := {
   e_method : string; e_target : string; e_host : string;
   e_hdrs : list (string * string);          (* client header lines as sent *)
   e_body : string;
+  e_cut : bool;                             (* the client cut its upload off before the framing was satisfied *)
   e_resp_status : Z; e_resp_hdrs : list (string * string); e_resp_enc : enc; e_resp_body : string;
   (* oracles computed by the harness with the real libraries *)
   e_gzip : list (string * string);
@@ -127,7 +128,7 @@ Definition case_bresp (c : e2e_case) : bresp :=
      br_enc := e_resp_enc c; br_body := e_resp_body c |}.
 
 Definition run_model (q : quirks) (c : e2e_case) : outcome :=
-  exchange q (case_fns c) (e_cfg c) (case_creq c) (case_bresp c).
+  exchange_cut q (case_fns c) (e_cfg c) (e_cut c) (case_creq c) (case_bresp c).
 
 Definition obs_of_outcome (c : e2e_case) (o : outcome) : e2e_obs :=
   let f := case_fns c in
@@ -237,7 +238,22 @@ Definition prop_req (c : e2e_case) (x : e2e_obs) : bool :=
 (** response side: what the client received against the backend answer scripted in [src]
     (the step itself, or - for a cache hit - an earlier step), under the ResponseAdaptor
     settings [cfg] / [ed] *)
+(** sizes the backend's body may have when the response limit is applied (as sent, with its
+    codings undone, gzip-compressed) *)
+Definition size_candidates (src : e2e_case) : list Z :=
+  let b := e_resp_body src in
+  let base := (b :: match e_resp_peel src with Some (_, d) => [d] | None => [] end ++
+                    match alookup b (e_gunzip src) with Some (Some g) => [g] | _ => [] end)%list in
+  (map slen base ++ flat_map (fun y => match alookup y (e_gzip src) with Some z => [slen z] | None => [] end) base)%list.
+
+(** a positive effective serverMaxBodySize (pool-level unless 0, else proxy-level, 0 = 4 MB)
+    that the backend's body may exceed: C07 then wants a 500 with an empty body *)
+Definition may_exceed (cfg : pcfg) (src : e2e_case) : bool :=
+  let eff := spec_norm (effective (p_pool_max cfg) (p_proxy_max cfg)) in
+  (0 <=? eff) && existsb (fun n => eff <? n) (size_candidates src).
+
 Definition prop_resp (cfg : pcfg) (ed : hedit) (src : e2e_case) (x : e2e_obs) : bool :=
+  (may_exceed cfg src && x_got x && (x_status x =? 500) && String.eqb (x_body x) EmptyString && x_frame x) ||
   let f := case_fns src in
   let bh := mk_headers (e_resp_hdrs src) in
   let rs := p_rs cfg in
@@ -261,8 +277,13 @@ Definition request_ok (c : e2e_case) : bool :=
   | _, _ => false
   end.
 
+(** an upload cut off by the client: the backend never receives it as a complete request,
+    the client never gets a success for it *)
+Definition prop_cut (x : e2e_obs) : bool := (x_bcount x =? 0) && implb (x_got x) (400 <=? x_status x).
+
 Definition prop_e2e (c : e2e_case) (x : e2e_obs) : bool :=
-  if request_ok c then prop_req c x && prop_resp (e_cfg c) no_edit c x else true.
+  if e_cut c then prop_cut x
+  else if request_ok c then prop_req c x && prop_resp (e_cfg c) no_edit c x else true.
 
 (** *** attribution *)
 Definition flag (q : quirks) (i : N) : bool :=
@@ -337,7 +358,7 @@ Record hist_case := {
 
 Definition case_cfg (h : hist_case) : pcfg :=
   match hi_steps h with c :: _ => e_cfg c | [] =>
-    {| p_cstream := false; p_sstream := false; p_server_host := ""; p_host_is_name := false; p_keep_host := false;
+    {| p_cstream := false; p_pool_max := 0; p_proxy_max := 0; p_server_host := ""; p_host_is_name := false; p_keep_host := false;
        p_minlen := None; p_ra := {| a_on := false; a_body := ""; a_compress := false; a_decompress := false |};
        p_rs := {| a_on := false; a_body := ""; a_compress := false; a_decompress := false |} |} end.
 
@@ -387,7 +408,7 @@ Fixpoint with_obs (steps : list e2e_case) (outs : list outcome) : list e2e_case 
   match steps, outs with
   | c :: t, o :: t' =>
       {| e_cfg := e_cfg c; e_method := e_method c; e_target := e_target c; e_host := e_host c; e_hdrs := e_hdrs c;
-         e_body := e_body c; e_resp_status := e_resp_status c; e_resp_hdrs := e_resp_hdrs c; e_resp_enc := e_resp_enc c;
+         e_body := e_body c; e_cut := e_cut c; e_resp_status := e_resp_status c; e_resp_hdrs := e_resp_hdrs c; e_resp_enc := e_resp_enc c;
          e_resp_body := e_resp_body c; e_gzip := e_gzip c; e_gunzip := e_gunzip c; e_inflate := e_inflate c;
          e_req_peel := e_req_peel c; e_resp_peel := e_resp_peel c; e_client := e_client c; e_esc := e_esc c;
          e_out_dec := e_out_dec c; e_out_esc := e_out_esc c; e_parse := e_parse c; e_canon := e_canon c; e_bad := e_bad c;
